@@ -260,7 +260,7 @@ def check(prop, tier, seed, only=None, jobs=0, write_evidence=True):
         nonrepro = []
         for h, d, rest in new_viol:
             # second pass: the solver's assignment is replayed natively (concrete playback) before it is reported
-            rp = confirm_by_playback(shards[0], prop, h, d, rest, logdir)
+            rp = confirm_by_playback(shards[0], prop, h, d, rest, logdir, keep=write_evidence)
             d['playback'] = rp
             if rp.get('reproduced'):
                 replay_paths.append(rp['path'])
@@ -304,13 +304,15 @@ def check(prop, tier, seed, only=None, jobs=0, write_evidence=True):
 # concrete playback
 # ----------------------------------------------------------------------------
 
-def confirm_by_playback(shard, prop, h, d, rest, logdir):
+def confirm_by_playback(shard, prop, h, d, rest, logdir, keep=True):
     """Re-run one failing harness with --concrete-playback=print, then execute the printed unit test
     natively (`cargo kani playback`).  The violation is reported only if the native run fails."""
     rp = {'harness': h.name, 'module': h.mod.module, 'crate': h.mod.crate, 'property': prop, 'failed_checks': rest,
           'reproduced': False}
-    os.makedirs(os.path.join(EVID, 'replay'), exist_ok=True)
-    path = os.path.join(EVID, 'replay', '%s-%s.json' % (prop, h.name))
+    # runs that do not write evidence (trial runs against seeded changes) keep their replay files out of evidence/
+    rdir = os.path.join(EVID, 'replay') if keep else os.path.join(vk.CACHE, 'replay')
+    os.makedirs(rdir, exist_ok=True)
+    path = os.path.join(rdir, '%s-%s.json' % (prop, h.name))
     rp['path'] = path
     if not h.playback:
         return confirm_by_second_solver(shard, prop, h, d, rest, logdir, rp, path)
